@@ -13,7 +13,8 @@ T == Trace[l]
 IsEvent(e) == l <= Len(Trace) /\ Trace[l].ev = e /\ l' = l + 1
 
 TNew   == IsEvent("new") /\ len' = 0 /\ blocks' = 0 /\ tail' = 0 /\ hist' = <<>>
-TWrite == IsEvent("write") /\ T.ret = T.n /\ T.err = FALSE /\ Write(T.n)
+\* (the driver overwrites its buffer right after Write returns: the object must have copied what it keeps)
+TWrite == IsEvent("write") /\ T.ret = T.n /\ T.err = FALSE /\ T.caller_intact /\ Write(T.n)
 \* the slice returned by Sum is the caller's prefix followed by the digest of the stream so far
 TSum   == /\ IsEvent("sum") /\ Sum(T.p, T.c)
           /\ T.out = Prefix(T.p) \o DT(len)
